@@ -206,3 +206,56 @@ package upstream
 //@   opt implements github.com/andydunstall/piko/server/status.(Handler).Register
 //@   requires[group] group != nil
 //@   ensures[behind-group] grpAuth[group] && !old(gOpenRoute) ==> !gOpenRoute
+
+// ---- dialling an upstream (C01, C06, C16) ------------------------------------------
+// A connected upstream is dialled by opening a stream on its own session; a
+// remote-node upstream by connecting to that node's proxy address, with TLS
+// exactly when a TLS configuration is set.
+
+//@ ghost gStreamOn *yamux.Session
+//@ ghost gStreamErr error
+//@ ghost gDialAddr string
+//@ ghost gDialNet string
+//@ ghost gDialTLS bool
+//@ ghost gDialCount int
+
+//@ extern github.com/andydunstall/yamux.(*Session).OpenStream
+//@   modifies-all $gStreamOn $gStreamErr
+//@   ghost-set gStreamOn = s
+//@   ghost-set gStreamErr = result1
+//@   ensures[conn] result1 == nil ==> result0 != nil
+//@ extern net.Dial
+//@   modifies-all $gDialAddr $gDialNet $gDialTLS $gDialCount
+//@   ghost-set gDialAddr = address
+//@   ghost-set gDialNet = network
+//@   ghost-set gDialTLS = false
+//@   ghost-set gDialCount = old(gDialCount) + 1
+//@ extern crypto/tls.Dial
+//@   modifies-all $gDialAddr $gDialNet $gDialTLS $gDialCount
+//@   ghost-set gDialAddr = addr
+//@   ghost-set gDialNet = network
+//@   ghost-set gDialTLS = true
+//@   ghost-set gDialCount = old(gDialCount) + 1
+
+//@ nonnil ConnUpstream.sess NodeUpstream.node
+
+//@ contract (*ConnUpstream).Dial
+//@   serves C01 C16 C05
+//@   ensures[own-session] gStreamOn == u.sess
+//@   ensures[gone] gStreamErr != nil && errIs(gStreamErr, yamux.ErrRemoteGoAway) ==> result1 == ErrGone
+//@   ensures[passthrough] !(gStreamErr != nil && errIs(gStreamErr, yamux.ErrRemoteGoAway)) ==> result1 == gStreamErr
+//@   ensures[no-network-dial] gDialCount == old(gDialCount)
+
+//@ contract (*NodeUpstream).Dial
+//@   serves C01 C06
+//@   requires[fresh-step] gDialCount == 0
+//@   ensures[proxy-addr] gDialCount == 1 && gDialAddr == u.node.ProxyAddr && gDialNet == "tcp"
+//@   ensures[tls-iff-configured] gDialTLS == (u.tlsConfig != nil)
+//@   ensures[no-stream] gStreamOn == old(gStreamOn)
+
+//@ contract NewNodeUpstream
+//@   serves C01 C06
+//@   ensures[fields] result != nil && fresh(result) && result.endpointID == endpointID && result.node == node && result.tlsConfig == tlsConfig
+//@ contract NewConnUpstream
+//@   serves C01 C16
+//@   ensures[fields] result != nil && fresh(result) && result.endpointID == endpointID && result.sess == sess
